@@ -5,7 +5,7 @@
  R3  needsFree is set exactly for the kinds occaFree deletes, and the json delete is guarded by the flag
  R4  typed accessors check the tag before reinterpreting the pointer
 """
-from vlib.facts import kids, strip, walk, is_call, call_args, callee, render, literal
+from vlib.facts import call_object, kids, strip, walk, is_call, call_args, callee, render, literal
 from vlib.cfg import write_target
 from vlib.work import AnalysisBroken
 from vlib.flow import sequenced_before
@@ -43,6 +43,7 @@ def run(ctx):
     R.rule("C29-R2", "scalar conversion switch covers all 11 scalar tags", floor=6)
     R.rule("C29-R3", "needsFree set exactly for the kinds occaFree deletes; json delete guarded by the flag", floor=4)
     R.rule("C29-R5", "setters convert the C value before they touch the target container (C++17 evaluation order)", floor=3)
+    R.rule("C29-R6", "a string handed out by the C API points into the object asked (or into memory the caller owns), never into a buffer shared between calls or a dead local", floor=6)
     R.rule("C29-R4", "typed accessor checks the tag before casting the pointer", floor=8)
 
     fns = [f for f in prog.funcs.values() if f.d["file"].endswith("src/occa/internal/c/types.cpp") and f.d.get("tmpl") != "pattern"]
@@ -211,6 +212,33 @@ def run(ctx):
                      % ("before" if sb is False else "in an order C++ does not fix relative to when"))
     if n5 < 3:
         raise AnalysisBroken("C API json setters: only %d conversion/mutation pairs found" % n5)
+
+    # ---- R6 ---------------------------------------------------------------------------------------------------------------------------
+    cp = ctx.program(["src/c/json.cpp", "src/c/kernel.cpp", "src/c/device.cpp", "src/c/dtype.cpp"], thorough_all=False)
+    n6 = 0
+    for f in sorted(cp.funcs.values(), key=lambda f: f.q):
+        if f.d.get("tmpl") == "inst" or "/src/c/" not in f.d["file"] or not f.q.startswith("occa") or "::" in f.q or not f.d.get("sig", "").startswith("const char *"):
+            continue
+        defs = f.local_defs()
+        for r in [x for x in f.walk() if x["k"] == "ReturnStmt" and kids(x)]:
+            e = strip(kids(r)[0])
+            why = None
+            if is_call(e) and (callee(e) or "").split("::")[-1] in ("c_str", "data") and call_object(e) is not None:
+                root = strip(call_object(e))
+                while root["k"] == "MemberExpr" and kids(root):
+                    root = strip(kids(root)[0])
+                if root["k"] == "DeclRefExpr" and root.get("loc"):
+                    vd = [d for d in defs.get(root["d"], []) if d["k"] == "VarDecl"]
+                    t = f.type(vd[0]).strip() if vd else ""
+                    if vd and vd[0].get("static"):
+                        why = "a static buffer (`%s`) that every later call on this thread overwrites: a string read back earlier changes under the caller, or dangles when the buffer reallocates" % vd[0]["n"]
+                    elif vd and not t.endswith("&") and not t.endswith("*"):
+                        why = "the local `%s`, destroyed at the return: the caller receives a dangling pointer" % vd[0]["n"]
+            n6 += 1
+            R.ob("C29-R6", why is None, f.q, "returned string storage", f.site(r),
+                 "points into the queried object / caller-owned memory" if why is None else "the returned pointer refers to %s" % why, nontrivial=False)
+    if n6 < 6:
+        raise AnalysisBroken("C API string getters: only %d returns analysed" % n6)
 
 
 META = {
